@@ -1,0 +1,237 @@
+//! Verification hooks, compiled only with the `verif` cargo feature.
+//!
+//! Nothing in here changes what ord does unless a `Hooks` implementation has
+//! been installed by an external simulation harness; with the feature off
+//! (the default) this module is not compiled at all.
+
+use {
+  super::*,
+  redb::{DatabaseError, RepairSession, StorageBackend, StorageError},
+  std::sync::RwLock,
+};
+
+/// Callbacks into a simulator that owns the node, the disk, the clock and the
+/// thread schedule. Every method has a default that means "not simulated".
+pub trait Hooks: Send + Sync + 'static {
+  /// Replace the Bitcoin Core RPC client created for `url`.
+  fn rpc_client(&self, _url: &str) -> Option<Result<Client>> {
+    None
+  }
+
+  /// Answer a raw JSON-RPC batch body sent by the transaction fetcher.
+  fn fetch_rpc(&self, _body: &str) -> Option<Result<String>> {
+    None
+  }
+
+  /// Divert a back-off sleep to the simulated clock. `true` = slept.
+  fn sleep(&self, _duration: Duration) -> bool {
+    false
+  }
+
+  /// Storage backend to use instead of the file at `path`.
+  fn storage(&self, _path: &Path) -> Option<Box<dyn StorageBackend>> {
+    None
+  }
+
+  /// Named point on the indexing path: gate, crash point and probe.
+  fn point(&self, _name: &'static str, _arg: u64) -> Result {
+    Ok(())
+  }
+
+  /// Reach counter.
+  fn probe(&self, _name: &'static str) {}
+
+  /// Called by the block prefetch thread before fetching `height`.
+  /// `true` = stop fetching.
+  fn fetch_gate(&self, _height: u32) -> bool {
+    false
+  }
+
+  /// A background thread of the updater has exited.
+  fn thread_exit(&self, _name: &'static str) {}
+
+  /// Transaction fetch thread: called after the first outpoint of a batch
+  /// was received, before draining the channel.
+  fn batch_wait(&self) {}
+
+  /// Transaction fetch thread: `n` outpoints were drained into this batch.
+  fn batch_drained(&self, _n: usize) {}
+
+  /// Transaction fetch thread: results of the batch were handed back.
+  fn batch_delivered(&self) {}
+
+  /// Take the fully layered explorer router instead of binding a socket.
+  fn router(&self, _router: &axum::Router) -> bool {
+    false
+  }
+
+  /// Replacement for process randomness used when building transactions.
+  fn entropy(&self) -> Option<[u8; 32]> {
+    None
+  }
+}
+
+static HOOKS: RwLock<Option<Arc<dyn Hooks>>> = RwLock::new(None);
+
+pub fn install(hooks: Arc<dyn Hooks>) {
+  *HOOKS.write().unwrap() = Some(hooks);
+}
+
+pub fn uninstall() {
+  *HOOKS.write().unwrap() = None;
+}
+
+fn hooks() -> Option<Arc<dyn Hooks>> {
+  HOOKS.read().unwrap().clone()
+}
+
+pub(crate) fn rpc_client(url: &str) -> Option<Result<Client>> {
+  hooks()?.rpc_client(url)
+}
+
+pub(crate) fn fetch_rpc(body: &str) -> Option<Result<String>> {
+  hooks()?.fetch_rpc(body)
+}
+
+pub(crate) fn sleep(duration: Duration) -> bool {
+  hooks().is_some_and(|hooks| hooks.sleep(duration))
+}
+
+pub(crate) fn point(name: &'static str, arg: u64) -> Result {
+  match hooks() {
+    Some(hooks) => hooks.point(name, arg),
+    None => Ok(()),
+  }
+}
+
+pub(crate) fn probe(name: &'static str) {
+  if let Some(hooks) = hooks() {
+    hooks.probe(name);
+  }
+}
+
+pub(crate) fn fetch_gate(height: u32) -> bool {
+  hooks().is_some_and(|hooks| hooks.fetch_gate(height))
+}
+
+pub(crate) fn batch_wait() {
+  if let Some(hooks) = hooks() {
+    hooks.batch_wait();
+  }
+}
+
+pub(crate) fn batch_drained(n: usize) {
+  if let Some(hooks) = hooks() {
+    hooks.batch_drained(n);
+  }
+}
+
+pub(crate) fn batch_delivered() {
+  if let Some(hooks) = hooks() {
+    hooks.batch_delivered();
+  }
+}
+
+pub(crate) fn router(router: &axum::Router) -> bool {
+  hooks().is_some_and(|hooks| hooks.router(router))
+}
+
+pub(crate) fn entropy() -> Option<[u8; 32]> {
+  hooks()?.entropy()
+}
+
+/// Reports the exit of an updater background thread when dropped.
+pub(crate) struct ThreadGuard(&'static str);
+
+pub(crate) fn thread_guard(name: &'static str) -> ThreadGuard {
+  ThreadGuard(name)
+}
+
+impl Drop for ThreadGuard {
+  fn drop(&mut self) {
+    if let Some(hooks) = hooks() {
+      hooks.thread_exit(self.0);
+    }
+  }
+}
+
+#[derive(Debug)]
+struct BoxedBackend(Box<dyn StorageBackend>);
+
+impl StorageBackend for BoxedBackend {
+  fn len(&self) -> std::result::Result<u64, io::Error> {
+    self.0.len()
+  }
+
+  fn read(&self, offset: u64, out: &mut [u8]) -> std::result::Result<(), io::Error> {
+    self.0.read(offset, out)
+  }
+
+  fn set_len(&self, len: u64) -> std::result::Result<(), io::Error> {
+    self.0.set_len(len)
+  }
+
+  fn sync_data(&self) -> std::result::Result<(), io::Error> {
+    self.0.sync_data()
+  }
+
+  fn write(&self, offset: u64, data: &[u8]) -> std::result::Result<(), io::Error> {
+    self.0.write(offset, data)
+  }
+
+  fn close(&self) -> std::result::Result<(), io::Error> {
+    self.0.close()
+  }
+}
+
+/// Stand-in for `redb::Database` inside `Index::open_with_event_sender`: same
+/// builder calls, but `open`/`create` use the simulated storage backend when
+/// one is registered for the path. An empty simulated disk reports `NotFound`
+/// from `open`, so ord's own create branch runs.
+pub(crate) struct Database;
+
+impl Database {
+  pub(crate) fn builder() -> Builder {
+    Builder(redb::Database::builder())
+  }
+}
+
+pub(crate) struct Builder(redb::Builder);
+
+impl Builder {
+  pub(crate) fn set_cache_size(&mut self, bytes: usize) -> &mut Self {
+    self.0.set_cache_size(bytes);
+    self
+  }
+
+  pub(crate) fn set_repair_callback(
+    &mut self,
+    callback: impl Fn(&mut RepairSession) + 'static,
+  ) -> &mut Self {
+    self.0.set_repair_callback(callback);
+    self
+  }
+
+  pub(crate) fn open(&self, path: impl AsRef<Path>) -> Result<redb::Database, DatabaseError> {
+    match hooks().and_then(|hooks| hooks.storage(path.as_ref())) {
+      Some(backend) => {
+        if backend.len().map_err(StorageError::Io)? == 0 {
+          Err(DatabaseError::Storage(StorageError::Io(io::Error::new(
+            io::ErrorKind::NotFound,
+            "simulated disk is empty",
+          ))))
+        } else {
+          self.0.create_with_backend(BoxedBackend(backend))
+        }
+      }
+      None => self.0.open(path),
+    }
+  }
+
+  pub(crate) fn create(&self, path: impl AsRef<Path>) -> Result<redb::Database, DatabaseError> {
+    match hooks().and_then(|hooks| hooks.storage(path.as_ref())) {
+      Some(backend) => self.0.create_with_backend(BoxedBackend(backend)),
+      None => self.0.create(path),
+    }
+  }
+}
